@@ -347,7 +347,28 @@ func (e *env) play(hi int, h hist) []tracefmt.Rec {
 	for _, s := range h.H {
 		switch s {
 		case "msg":
-			x.msg(8 + (x.sent*7+hi)%40)
+			if h.Size > 0 {
+				x.msg(h.Size)
+			} else {
+				x.msg(8 + (x.sent*7+hi)%40)
+			}
+		case "failready":
+			// fault: the first backend's login succeeds and it dies at once, so the proxy's
+			// flush of the queued messages hits a dead connection; the proxy falls back to "b"
+			if h.Size > 0 {
+				time.Sleep(400 * time.Millisecond) // let the proxy queue the big messages first
+			}
+			time.Sleep(e.pace)
+			_ = cur.SendLoginSuccess()
+			_ = cur.Close()
+			nb, err := e.rt.Await("b", x.name, e.long)
+			if err != nil {
+				x.notef("%v", err)
+				x.finishRun()
+				return x.recs
+			}
+			x.emit(tracefmt.Rec{"ev": "lose"})
+			cur, x.target = nb, nb
 		case "hold":
 			x.setPhase(phase.NotStartedLegacyForgeHandshakeClientPhase)
 		case "unhold":
@@ -378,6 +399,9 @@ func (e *env) play(hi int, h hist) []tracefmt.Rec {
 			}
 			cur, x.target = nb, nb
 		case "ready":
+			if h.Size > 0 {
+				time.Sleep(400 * time.Millisecond) // let the proxy take in the big messages first
+			}
 			time.Sleep(e.pace)
 			release()
 			x.ready(cur)
@@ -552,7 +576,11 @@ func TestHist(t *testing.T) {
 			defer wg.Done()
 			defer func() { <-sem }()
 			var recs []tracefmt.Rec
-			if h.Count > 0 {
+			if h.Size > 0 && h.Count == 0 {
+				heavy <- struct{}{}
+				recs = e.play(hi, h)
+				<-heavy
+			} else if h.Count > 0 {
 				heavy <- struct{}{}
 				recs = e.caps(hi, h)
 				<-heavy
